@@ -447,8 +447,8 @@ fn validate(ctx: &Context<impl Channel>) -> Result<(), Error> {
     if p_out.is_empty() {
         return Err(Error::MissingOutputParties);
     }
-    for output_party in p_out {
-        if *output_party >= p_max {
+    for (i, output_party) in p_out.iter().enumerate() {
+        if *output_party >= p_max || p_out[..i].contains(output_party) {
             return Err(Error::InvalidOutputParty(*output_party));
         }
     }
